@@ -1460,10 +1460,14 @@ impl<'a, 'b, W: Write> Serializer for &'a mut YamlSerializer<'b, W> {
             // The compact form puts the inner dash two columns after the outer one, which is
             // where the following inner items are indented only when the indentation step is 2.
             // For any other step the inner sequence starts on its own line.
-            let inline_first = after_dash && self.indent_step == 2;
+            // A pending anchor (`- &a1`) ends the dash's line as well.
+            let inline_first =
+                after_dash && self.indent_step == 2 && self.pending_anchor_id.is_none();
             let base_after_dash = self.after_dash_depth;
-            if after_dash && !inline_first && self.pending_anchor_id.is_none() {
-                self.newline()?;
+            if after_dash && !inline_first {
+                if self.pending_anchor_id.is_none() {
+                    self.newline()?;
+                }
                 self.pending_inline_map = false;
             }
             // If we are a mapping value (space after colon was pending), we will handle
